@@ -185,7 +185,9 @@ impl Datastore for ClnDatastore {
                 ),
                 string: Some(info),
                 hex: None,
-                mode: Some(DatastoreMode::MUST_REPLACE),
+                // The attempt record may not exist: the node can stop after
+                // the pending state was stored and before the attempt was.
+                mode: Some(DatastoreMode::CREATE_OR_REPLACE),
                 generation: None,
             })
             .await?;
